@@ -40,6 +40,7 @@ class StringConcatViolation:
     line_number: int
     column: int
     loop_type: str  # 'for', 'for_in', 'while', 'do'
+    loop_line: int = 0  # line of the outermost enclosing loop (identifies the loop for dedup)
 
 
 # thailint: ignore-next-line[srp.violation] Uses small focused methods to reduce complexity
@@ -50,6 +51,7 @@ class TypeScriptStringConcatAnalyzer(TypeScriptBaseAnalyzer):
         """Initialize the analyzer."""
         super().__init__()
         self._string_variables: set[str] = set()
+        self._outer_loop_line = 0
 
     def find_violations(self, root_node: Node) -> list[StringConcatViolation]:
         """Find all string concatenation in loop violations.
@@ -112,8 +114,11 @@ class TypeScriptStringConcatAnalyzer(TypeScriptBaseAnalyzer):
         """
         # Track loop entry
         current_loop = loop_type
+        entered_outermost_loop = node.type in LOOP_NODE_TYPES_TS and loop_type is None
         if node.type in LOOP_NODE_TYPES_TS:
             current_loop = node.type.replace("_statement", "").replace("_", "_")
+        if entered_outermost_loop:
+            self._outer_loop_line = node.start_point[0] + 1
 
         # Check for augmented assignment (+=)
         if node.type == "augmented_assignment_expression" and current_loop:
@@ -122,6 +127,9 @@ class TypeScriptStringConcatAnalyzer(TypeScriptBaseAnalyzer):
         # Recurse into children
         for child in node.children:
             self._find_concat_in_loops(child, violations, current_loop)
+
+        if entered_outermost_loop:
+            self._outer_loop_line = 0
 
     def _check_augmented_assignment(
         self, node: Node, violations: list[StringConcatViolation], loop_type: str
@@ -185,6 +193,7 @@ class TypeScriptStringConcatAnalyzer(TypeScriptBaseAnalyzer):
                 line_number=node.start_point[0] + 1,
                 column=node.start_point[1],
                 loop_type=loop_type,
+                loop_line=self._outer_loop_line,
             )
         )
 
@@ -225,12 +234,12 @@ class TypeScriptStringConcatAnalyzer(TypeScriptBaseAnalyzer):
         Returns:
             Deduplicated list with one violation per variable
         """
-        seen: set[str] = set()
+        seen: set[tuple[str, int]] = set()
         result: list[StringConcatViolation] = []
 
         for v in violations:
-            if v.variable_name not in seen:
-                seen.add(v.variable_name)
+            if (v.variable_name, v.loop_line) not in seen:
+                seen.add((v.variable_name, v.loop_line))
                 result.append(v)
 
         return result
